@@ -95,6 +95,15 @@ func canonItem(it Item) Item {
 	return out
 }
 
+// observations are snapshots: they never share memory with what the client returned
+func copyBytes2(bs [][]byte) [][]byte {
+	out := make([][]byte, len(bs))
+	for i, b := range bs {
+		out[i] = append([]byte{}, b...)
+	}
+	return out
+}
+
 func S(s string) AV  { return AV{T: "S", V: []byte(s)} }
 func Nn(s string) AV { return AV{T: "N", V: []byte(s)} }
 func Bb(s string) AV { return AV{T: "B", V: []byte(s)} }
@@ -192,7 +201,7 @@ func fromTypes(t *types.Item) AV {
 		}
 		return AV{T: "BS", Set: s}
 	case t.B != nil:
-		return AV{T: "B", V: t.B}
+		return AV{T: "B", V: append([]byte{}, t.B...)}
 	}
 	return AV{T: "?"}
 }
@@ -276,7 +285,7 @@ func fromV2(v v2types.AttributeValue) AV {
 	case *v2types.AttributeValueMemberN:
 		return AV{T: "N", V: []byte(x.Value)}
 	case *v2types.AttributeValueMemberB:
-		return AV{T: "B", V: x.Value}
+		return AV{T: "B", V: append([]byte{}, x.Value...)}
 	case *v2types.AttributeValueMemberBOOL:
 		return AV{T: "BOOL", Bool: x.Value}
 	case *v2types.AttributeValueMemberNULL:
@@ -297,7 +306,7 @@ func fromV2(v v2types.AttributeValue) AV {
 	case *v2types.AttributeValueMemberNS:
 		return AV{T: "NS", Set: bytesOf(x.Value)}
 	case *v2types.AttributeValueMemberBS:
-		return AV{T: "BS", Set: x.Value}
+		return AV{T: "BS", Set: copyBytes2(x.Value)}
 	}
 	return AV{T: "?"}
 }
@@ -405,9 +414,9 @@ func fromV1(t *v1.AttributeValue) AV {
 	case t.NS != nil:
 		return AV{T: "NS", Set: strs(t.NS)}
 	case t.BS != nil:
-		return AV{T: "BS", Set: t.BS}
+		return AV{T: "BS", Set: copyBytes2(t.BS)}
 	case t.B != nil:
-		return AV{T: "B", V: t.B}
+		return AV{T: "B", V: append([]byte{}, t.B...)}
 	}
 	return AV{T: "?"}
 }
